@@ -167,6 +167,10 @@ class Buf(Val):
 class Arr2(Val):
     name: str
     shape: list
+    creator: str = ""
+    proto: object = None
+    kwargs: dict = field(default_factory=dict)
+    node: object = None
 
 
 @dataclass
